@@ -189,6 +189,11 @@ impl<V: Clone> CacheRing<V> {
 
     /// Put a value into the cache.
     pub fn put(&self, key: &str, value: V, cost: f64, size_bytes: usize) {
+        // A ring without slots (capacity 0, e.g. restored from a damaged snapshot) holds nothing.
+        if self.capacity == 0 {
+            return;
+        }
+
         let key_hash = Self::hash_key(key);
 
         // Check if key already exists and update in place
